@@ -102,8 +102,10 @@ def check_case(case):
                 return 'ambiguous'
             return 'absent'
         p = spans.pos(labs, label)
-        if p is not None and spans.is_pandas(desc) and sum(1 for x in labs if spans.pos([x], label) == 0) > 1:
-            return 'ambiguous'        # pandas resolves a repeated label to a slice / mask, not to one position
+        if p is not None and (spans.is_pandas(desc) or desc['k'] == 'np') and sum(1 for x in labs if spans.pos([x], label) == 0) > 1:
+            # pandas resolves a repeated label to a slice / mask, not to one position; the lookup for NumPy-array spans
+            # refuses several matches as well
+            return 'ambiguous'
         return 'absent' if p is None else p
 
     dup = [x for x in labs if sum(1 for y in labs if spans.pos([y], x) == 0) > 1]
@@ -216,7 +218,10 @@ def script_for(n, kinds, fault=None):
 
 
 DUPLICATE_SPANS = [{'k': 'pdindex', 'items': ['a', 'b', 'a', 'c']}, {'k': 'pdindex', 'items': ['a', 'a', 'b', 'c']},
-                   {'k': 'pdindex', 'items': [3, 1, 2, 1, 0]}, {'k': 'pdindex', 'items': [5, 6, 6]}]
+                   {'k': 'pdindex', 'items': [3, 1, 2, 1, 0]}, {'k': 'pdindex', 'items': [5, 6, 6]},
+                   # NumPy-array spans with a repeated label, sorted and not
+                   {'k': 'np', 'items': [1, 2, 2, 3]}, {'k': 'np', 'items': ['a', 'a', 'b', 'c']}, {'k': 'np', 'items': [3, 1, 2, 1, 0]},
+                   {'k': 'np', 'items': [5, 6, 6]}, {'k': 'np', 'items': [2000, 2000, 2001]}]
 
 
 def gen_pairs(max_len):
@@ -251,7 +256,7 @@ def gen_pairs(max_len):
 def strategy():
     from hypothesis import strategies as st
     descs = spans.catalogue(5, min_len=1) + spans.catalogue_long()
-    faults = st.sampled_from([['set', 'nan'], ['set', 'inf'], 'warn', ['raise', 'ZeroDivisionError'], ['raise', 'KeyError'],
+    faults = st.sampled_from([['set', 'nan'], ['set', 'inf'], 'warn', ['warn', 'UserWarning', 'inf'], ['warn', 'FutureWarning', 1.0], ['raise', 'ZeroDivisionError'], ['raise', 'KeyError'],
                               ['move', 100.0]])
 
     @st.composite
